@@ -119,6 +119,13 @@ func runCase(r *vh.Run, c connCase) {
 		}
 		return a
 	}
+	env.Origin.EarlyHead = func(conn, idx int, m *h1x.Msg) *h1x.Action {
+		id := targetID(m.Target)
+		if id < 0 || id >= len(p.Reqs) || p.Reqs[id].Early == "" {
+			return nil
+		}
+		return &h1x.Action{Write: renderResponse(p.Ress[id]), NoRead: p.Reqs[id].Early == "noread"}
+	}
 	var seg func(int) int
 	if p.SegMode > 0 {
 		var mu sync.Mutex
@@ -304,8 +311,8 @@ func describe(p *plan) interface{} {
 		if q.HasQuery {
 			t += "?" + q.Query
 		}
-		ex = append(ex, fmt.Sprintf("#%d %s %s %s abs=%v hdrs=%d body=%s/%d close=%v -> %s %d %s/%d hdrs=%d close=%v headCL=%d",
-			i, q.Method, trunc(t, 60), q.Proto, q.Abs, len(q.Headers), q.Framing, len(q.Body), q.Close, s.Proto, s.Status, s.Framing, len(s.Body), len(s.Headers), s.Close, s.HeadCL))
+		ex = append(ex, fmt.Sprintf("#%d %s %s %s abs=%v hdrs=%d body=%s/%d close=%v early=%q -> %s %d %s/%d hdrs=%d close=%v headCL=%d",
+			i, q.Method, trunc(t, 60), q.Proto, q.Abs, len(q.Headers), q.Framing, len(q.Body), q.Close, q.Early, s.Proto, s.Status, s.Framing, len(s.Body), len(s.Headers), s.Close, s.HeadCL))
 	}
 	return map[string]interface{}{"pipelined": p.Pipelined, "seg_mode": p.SegMode, "must_close_after": p.Last, "exchanges": ex}
 }
